@@ -446,6 +446,15 @@ same("C20", "r6-claim-difference-method", E + "FEM/_mesher.py", "            nod
 same("C20", "r6-other-rank-nodes-loop", E + "FEM/_mesher.py", "            otherRankNodes = set().union(\n                *(dict_rank_nodes[r] for r in range(Nproc) if r != rank)\n            )\n", "            otherRankNodes = set()\n            for r in range(Nproc):\n                if r != rank:\n                    otherRankNodes |= dict_rank_nodes[r]\n")
 same("C20", "r6-rows-sorted-set", E + "FEM/_mesher.py", "            all_idx = np.unique(\n                np.concatenate([idx_r, np.array(list(ghost_idx), dtype=int)])\n            )\n", "            all_idx = np.array(sorted(set(idx_r.tolist()) | ghost_idx), dtype=int)\n")
 
+same("C20", "r6-merge-offsets-cumsum-minus", E + "FEM/_mesh.py", "        offsets = np.concatenate(([0], np.cumsum(sizes[:-1])))\n", "        offsets = np.cumsum(sizes) - sizes\n")
+same("C20", "r6-merge-mapping-loop", E + "FEM/_mesh.py", "            mapping = [old_to_new[off : off + s] for off, s in zip(offsets, sizes)]\n", "            mapping = []\n            for k in range(len(list_mesh)):\n                mapping.append(old_to_new[offsets[k] : offsets[k] + sizes[k]])\n")
+
+same("C20", "r6-energy-local-names", E + "Simulations/_simu.py", "        return Reduce_sum(0.5 * x[dofs] @ (A[dofs] @ x))\n", "        x_d = x[dofs]\n        Ax_d = A[dofs] @ x\n        energy = 0.5 * (x_d @ Ax_d)\n        return Reduce_sum(energy)\n")
+same("C20", "r6-owned-nodes-unpack", E + "FEM/_mesh.py", "            return list_groupElem[0]._Get_partitioned_data()[3]\n", "            _, _, _, nodes, _ = list_groupElem[0]._Get_partitioned_data()\n            return nodes\n")
+mut("C20", "r6-energy-all-rows-of-x", E + "Simulations/_simu.py", "        return Reduce_sum(0.5 * x[dofs] @ (A[dofs] @ x))\n", "        return Reduce_sum(0.5 * x @ (A @ x))\n", "Calc_Energy")
+mut("C20", "r6-reaction-mass-missing", E + "Simulations/_simu.py", "            reaction[dofs] += M[dofs] @ self._Get_a_n(problemType)\n", "            reaction[dofs] += M[dofs] @ self._Get_v_n(problemType)\n", "Calc_Reaction")
+mut("C20", "r6-owned-nodes-ghost-slot", E + "FEM/_mesh.py", "            return list_groupElem[0]._Get_partitioned_data()[3]\n", "            return list_groupElem[0]._Get_partitioned_data()[4]\n", "_Get_mpi_owned_nodes")
+
 
 def apply_edit(root, e):
     if e.get("patch"):
